@@ -59,6 +59,7 @@ static inline uint64 D64(double f) {uint64 u; memcpy(&u, &f, 8); return u;}
 static inline unsigned char StrByte(const unsigned char * V, unsigned off) {return wl_concrete_strings() ? (unsigned char)(97 + (off % 26)) : V[off];}
 
 // builds message (mi) of the shape tables through the public Add* API, every item value taken from V
+static bool g_prepend = false;
 static void Build(Message & m, unsigned mi, const unsigned char * V)
 {
    const WLMsg * M = &wl_msgs[mi];
@@ -68,20 +69,24 @@ static void Build(Message & m, unsigned mi, const unsigned char * V)
       const WLField * f = &wl_fields[M->first + fi];
       const unsigned char * p = V + f->voff;
       unsigned o = 0;
-      for (unsigned i=0; i<f->n; i++)
+      // g_prepend: fixed-size fields with >= 2 items are built as Add(item1..itemN-1) followed by Prepend(item0) -- same Message, but the item storage ring wraps
+      const bool pre = (g_prepend)&&(f->n >= 2)&&(f->kind != WK_STRING)&&(f->kind != WK_RAW)&&(f->kind != WK_MESSAGE);
+      for (unsigned step=0; step<f->n; step++)
       {
+         const unsigned i = pre ? ((step+1 < f->n) ? (step+1) : 0) : step;
+         const bool pp = (pre)&&(step+1 == f->n);
          status_t r;
          switch(f->kind)
          {
-            case WK_BOOL:   r = m.AddBool(f->name, p[i] != 0); break;
-            case WK_INT8:   r = m.AddInt8(f->name, (int8) p[i]); break;
-            case WK_INT16:  r = m.AddInt16(f->name, (int16) V16(p+2*i)); break;
-            case WK_INT32:  r = m.AddInt32(f->name, (int32) V32(p+4*i)); break;
-            case WK_INT64:  r = m.AddInt64(f->name, (int64) V64(p+8*i)); break;
-            case WK_FLOAT:  r = m.AddFloat(f->name, VF(p+4*i)); break;
-            case WK_DOUBLE: r = m.AddDouble(f->name, VD(p+8*i)); break;
-            case WK_POINT:  r = m.AddPoint(f->name, Point(VF(p+8*i), VF(p+8*i+4))); break;
-            case WK_RECT:   r = m.AddRect(f->name, Rect(VF(p+16*i), VF(p+16*i+4), VF(p+16*i+8), VF(p+16*i+12))); break;
+            case WK_BOOL:   r = pp ? m.PrependBool(f->name, p[i] != 0)            : m.AddBool(f->name, p[i] != 0); break;
+            case WK_INT8:   r = pp ? m.PrependInt8(f->name, (int8) p[i])           : m.AddInt8(f->name, (int8) p[i]); break;
+            case WK_INT16:  r = pp ? m.PrependInt16(f->name, (int16) V16(p+2*i))   : m.AddInt16(f->name, (int16) V16(p+2*i)); break;
+            case WK_INT32:  r = pp ? m.PrependInt32(f->name, (int32) V32(p+4*i))   : m.AddInt32(f->name, (int32) V32(p+4*i)); break;
+            case WK_INT64:  r = pp ? m.PrependInt64(f->name, (int64) V64(p+8*i))   : m.AddInt64(f->name, (int64) V64(p+8*i)); break;
+            case WK_FLOAT:  r = pp ? m.PrependFloat(f->name, VF(p+4*i))            : m.AddFloat(f->name, VF(p+4*i)); break;
+            case WK_DOUBLE: r = pp ? m.PrependDouble(f->name, VD(p+8*i))           : m.AddDouble(f->name, VD(p+8*i)); break;
+            case WK_POINT:  r = pp ? m.PrependPoint(f->name, Point(VF(p+8*i), VF(p+8*i+4))) : m.AddPoint(f->name, Point(VF(p+8*i), VF(p+8*i+4))); break;
+            case WK_RECT:   r = pp ? m.PrependRect(f->name, Rect(VF(p+16*i), VF(p+16*i+4), VF(p+16*i+8), VF(p+16*i+12))) : m.AddRect(f->name, Rect(VF(p+16*i), VF(p+16*i+4), VF(p+16*i+8), VF(p+16*i+12))); break;
             case WK_STRING:
             {
                const unsigned l = wl_lens[f->lens+i]; char tmp[8]; for (unsigned j=0; j<l; j++) tmp[j] = (char) StrByte(V, f->voff+o+j); tmp[l] = 0;
@@ -209,6 +214,22 @@ extern "C" void harness_msg_flatten(void)
    for (unsigned i=0; i<nv; i++) V[i] = nondet_u8();
    CanonicalV(V);
    unsigned char ref[160]; wl_encode(V, ref);
+   Message m; Build(m, 0, V);
+   const uint32 fs = m.FlattenedSize();
+   CHECK(fs == L, "FlattenedSize() equals the reference size");
+   uint8 * out = newnothrow_array(uint8, L); ASSUME(out != NULL);
+   if (fs == L) {m.FlattenToBytes(out, fs); for (unsigned i=0; i<L; i++) {CHECK(out[i] == ref[i], "flattened byte equals the reference encoding"); verif_observe(out[i]);}}
+   VERIF_REACHED();
+}
+
+// the same, with the fields built through Add...+Prepend (added after seeded change C01-m3: a writer that assumes contiguous item storage)
+extern "C" void harness_msg_flatten_pre(void)
+{
+   unsigned char V[WL_MAXVALS]; const unsigned nv = wl_nvals(), L = wl_full();
+   for (unsigned i=0; i<nv; i++) V[i] = nondet_u8();
+   CanonicalV(V);
+   unsigned char ref[160]; wl_encode(V, ref);
+   g_prepend = true;
    Message m; Build(m, 0, V);
    const uint32 fs = m.FlattenedSize();
    CHECK(fs == L, "FlattenedSize() equals the reference size");
